@@ -410,7 +410,7 @@ def bridged(line):
     if not t:
         return False
     o = t[0]
-    if o in ('newv', 'newn', 'pbm', 'newg', 'newm', 'del', 'insm', 'era', 'erar', 'pop', 'clr', 'rsz', 'rsv', 'stf', 'asn', 'asc', 'asm', 'swp', 'appc', 'appm'):
+    if o in ('new', 'newv', 'newn', 'pbm', 'newg', 'newm', 'del', 'insm', 'era', 'erar', 'pop', 'clr', 'rsz', 'rsv', 'stf', 'asn', 'asc', 'asm', 'swp', 'appc', 'appm'):
         return True
     if o == 'newc':
         return len(t) > 3 and t[3] != '-'
